@@ -38,6 +38,10 @@ def ob_sampler(crate, fname, order, args=None):
         for ctx, (dom, ex, r) in live:
             hy = ctx.facts + ctx.pc
             draws = ex.rng_draw_bytes
+            for dr in draws:
+                if len(dr) != 32:
+                    raise Violation("the generator draws %d bytes from the CSPRNG for a 256-bit scalar (full entropy needs 32: some bytes of the candidate are constant)" % len(dr),
+                                    {"bytes_drawn": len(dr)})
             last = bytes_term(dom, draws[-1])
             R = u256_term(dom, r)
             discharge(stats, hy, R == last, "returned scalar == big-endian integer of the LAST (accepted) 32-byte draw, unchanged")
@@ -68,9 +72,9 @@ def ob_keygen_sm2():
             if not result_ok(r):
                 continue
             n += 1
-            if len(W.rng_draws) != 1:
-                raise Violation("gen_keypair draws %d scalars" % len(W.rng_draws))
-            d = W.rng_draws[0]
+            if not W.rng_draws:
+                raise Violation("gen_keypair succeeds without drawing a scalar")
+            d = W.rng_draws[-1]            # the LAST scalar drawn in this call must be the one used
             pk, sk = r.f[0].f[0], r.f[0].f[1]
             discharge(stats, ctx.facts + ctx.pc, z3.And(u256_term(dom, sk.f[0]) == d, pt_term(dom, pk.f[0]) == W.GMUL(d), pt_term(dom, sk.f[1].f[0]) == W.GMUL(d)),
                       "private key is the scalar drawn in THIS call, public key is [d]G")
@@ -103,9 +107,9 @@ def ob_keygen_sm9(fname, twist):
         paths = explore(run)
         check_all_panics(stats, paths)
         for ctx, (dom, draws, GM, TM, r) in live_paths(paths):
-            if len(draws) != 1:
-                raise Violation("%s draws %d scalars" % (fname, len(draws)))
-            k = draws[0]
+            if not draws:
+                raise Violation("%s returns a master key without drawing a scalar" % fname)
+            k = draws[-1]                  # the LAST scalar drawn in this call must be the one used
             discharge(stats, ctx.facts + ctx.pc, u256_term(dom, r.f[0]) == k, "master secret is the scalar drawn in THIS call")
             pub = r.f[1]
             if twist:
